@@ -87,6 +87,10 @@ func wmRun(t *testing.T, c *simrt.Case, prop string, keepTrace bool) simrt.Resul
 		ctx := context.Background()
 		_ = w.inner.UpdateOffsets(ctx, "orders", 0, 41)
 		_ = w.inner.CommitConsumerOffset(ctx, "g0", "orders", 0, 17, "m")
+		// a commit that lies beyond the partition's end offset (legal: the log was truncated, or the commit
+		// was made by a tool): a reader that "repairs" it would write
+		_ = w.inner.UpdateOffsets(ctx, "orders", 1, 49)
+		_ = w.inner.CommitConsumerOffset(ctx, "g0", "orders", 1, 80, "ahead")
 		_ = w.inner.PutConsumerGroup(ctx, &metadatapb.ConsumerGroup{GroupId: "g0", State: "stable", GenerationId: 3, Leader: "m1",
 			RebalanceTimeoutMs: 30000,
 			Members: map[string]*metadatapb.GroupMember{
